@@ -595,6 +595,35 @@ func generate(c *drv.Ctx) {
 		}
 	}
 	c.Extra["default_magnitude_declarations"] = nDef
+	// (4e) the operation also declares an optional body parameter and the requests carry no body: the non-body parameter is
+	// bound exactly as without it (whatever the order in which the binder visits the parameters)
+	nBody := 0
+	for _, l := range []loc{{"query", ""}, {"header", ""}, {"path", ""}} {
+		for _, k := range []kind{{"integer", "int32"}, {"string", ""}, {"boolean", ""}, {"number", "double"}, {"string", "date"}, {"string", "uuid"}} {
+			for _, f := range allFlags(l, false) {
+				if f.AE {
+					continue
+				}
+				for _, arr := range []string{"", "csv"} {
+					d := Decl{In: l.In, Name: declName(l), Type: k.T, Format: k.F, Required: f.Req, HasDef: f.Def, Val: noVal(), Body: "optional"}
+					if f.Def {
+						d.Def = []string{goodText(k.T, k.F)}
+					}
+					texts := textsFor(k.T, k.F)
+					if arr != "" {
+						d.Type, d.Format, d.IType, d.IFmt, d.CF = "array", "", k.T, k.F, arr
+						if f.Def {
+							d.Def = []string{goodText(k.T, k.F), goodText(k.T, k.F)}
+						}
+						texts = arrayTexts(d, []string{goodText(k.T, k.F), badText(k.T, k.F), ""})
+					}
+					c.Case(bindCase(d, requestsFor(d, texts, []string{goodText(k.T, k.F), badText(k.T, k.F), ""})))
+					nBody++
+				}
+			}
+		}
+	}
+	c.Extra["with_optional_body_declarations"] = nBody
 	// (5) files
 	for _, f := range []flags{{false, false, false}, {true, false, false}} {
 		d := Decl{In: "formData", Enc: "multipart", Name: "up", Type: "file", Required: f.Req, Val: noVal()}
@@ -824,6 +853,9 @@ func randomCase(r *rand.Rand) M {
 			}
 		}
 	}
+	if d.In != "formData" && r.Intn(5) == 0 {
+		d.Body = "optional"
+	}
 	closedItem := d.Type == "array" && isFormat(k.F) && k.F != "password"
 	var reqs []Req
 	for n := 6 + r.Intn(6); n > 0; n-- {
@@ -877,7 +909,7 @@ func randomCase(r *rand.Rand) M {
 			ps = append(ps, Pair{K: key, V: t})
 		}
 		rq := Req{Pairs: ps}
-		if (d.In == "formData" || d.In == "query") && r.Intn(3) == 0 {
+		if (d.In == "formData" || d.In == "query") && d.Body == "" && r.Intn(3) == 0 {
 			for m := 1 + r.Intn(2); m > 0; m-- {
 				key := d.Name
 				if r.Intn(5) == 0 {
